@@ -112,6 +112,7 @@ type Engine struct {
 	Inconclusive                                  map[string]int
 	FuncInstrs                                    map[string]int
 	Steps                                         int
+	AliasRelax                                    int
 	Witnesses                                     []*Case
 	WitnessEvery                                  int
 	WitnessMax                                    int
